@@ -255,6 +255,11 @@ def run_scenario(sc):
         obs['main_points'] = S.threads[0].points
         obs['points'] = {t.role: t.points for t in S.threads[:40]}
         obs['roles_missing'] = list(getattr(S, 'roles_missing', []) or [])
+        if sc.get('want_shutdown'):
+            try:
+                obs['shutdown'] = extract_shutdown(S.trace)
+            except Exception as e:  # noqa
+                obs['shutdown_error'] = repr(e)
         if sc.get('want_aproto'):
             try:
                 obs['aproto'] = extract_aproto(S.trace)
@@ -387,6 +392,100 @@ def extract_kill(trace, i0, i1):
             if key is not None:
                 out[key].append('d')
     return {k: v for k, v in out.items() if 'k' in v}
+
+
+def extract_shutdown(trace):
+    """what the forced shutdown and the stop of the restart handler did, in the vocabulary of Model/Shutdown.lean.
+    Returns {'tw': [{'wid', 'running', 'leaves', 'acts'}, …] — one record per clean-up thread of terminate() —,
+             'hstop': [[obs, …], …] — one sequence per restart handler thread}.
+    `running` is the value the clean-up thread read from the running-task flag, `leaves` the number of its looks at the worker
+    (is_alive after a bounded join) that found it alive before one found it gone — both are observations of the simulated
+    process, not of what the pool then decided to do."""
+    tw, cur_tw = [], {}
+    hs, cur_h = [], None
+    pend_join = {}
+    closed, ready = set(), set()
+    for rec in trace:
+        role, kind = str(rec[2]), rec[3]
+        # ---- Part A
+        if kind == 'start' and isinstance(rec[4], str) and rec[4].startswith('Worker-'):
+            closed.add(rec[4])             # no pid yet …
+        if kind == 'proc.ready':
+            closed.discard(rec[4])         # … until start() has returned
+            ready.add(rec[4])
+        if kind == 'proc.close':
+            closed.add(rec[4])
+        if kind == 'start' and isinstance(rec[4], str) and rec[4].startswith('terminate_worker['):
+            wid = int(rec[4][17:rec[4].index(']')])
+            # `usable`: there is a process object the clean-up thread can work with (the graceful path has not closed it already)
+            r = {'wid': wid, 'running': None, 'looks': [], 'acts': [], 'open': True, 'i0': rec[0], 'i1': None, 'usable': ('Worker-%d' % wid) in ready and ('Worker-%d' % wid) not in closed}
+            cur_tw[rec[4]] = r
+            tw.append(r)
+        elif kind == 'thread-end' and role.startswith('terminate_worker['):
+            if role in cur_tw:
+                cur_tw[role]['i1'] = rec[0]
+                cur_tw.pop(role)['open'] = False
+        elif role.startswith('terminate_worker[') and role in cur_tw:
+            r = cur_tw[role]
+            if kind == 'value.get' and str(rec[4]).startswith('running_task['):
+                r['running'] = bool(rec[5])
+            elif kind in ('os.kill', 'os.kill-miss') and rec[5] == 10:
+                r['acts'].append('U')
+            elif kind == 'x.join':
+                if rec[5]:
+                    pend_join[role] = True              # bounded join: the look that follows decides
+                else:
+                    r['acts'].append('F')
+            elif kind == 'x.is_alive':
+                if pend_join.pop(role, False):
+                    r['acts'].append('J0' if rec[5] else 'J1')
+                    r['looks'].append(bool(rec[5]))
+                else:
+                    r['looks'].append(bool(rec[5]))     # the look after the last round
+            elif kind == 'drain':
+                r['acts'].append('D')
+            elif kind == 'proc.terminate':
+                r['acts'].append('T')
+            elif kind == 'proc.close':
+                r['acts'].append('C')
+        # ---- Part C
+        if kind == 'start' and rec[4] == 'restart_handler':
+            cur_h = []
+            hs.append(cur_h)
+        if cur_h is None:
+            continue
+        if kind == 'event.set' and rec[4] == 'hstop':
+            # an interrupted stop that starts over (KeyboardInterrupt inside _stop_handler_threads → terminate() → again) sets the
+            # flag a second time: no change of state, and the stopper's visible behaviour from `probe` is that of
+            # `joinShort → probeLoop`; only the first one is an event of the model
+            if 'F' not in cur_h:
+                cur_h.append('F')
+        elif kind == 'event.set' and rec[4] == 'exception_thrown':
+            cur_h.append('!')
+        elif kind == 'cond.wait' and role == 'restart_handler':
+            cur_h.append('W')
+        elif kind == 'cond.woken' and role == 'restart_handler':
+            cur_h.append('K')
+        elif kind == 'start' and role == 'restart_handler':
+            cur_h.append('S')
+        elif kind == 'thread-end' and role == 'restart_handler':
+            cur_h.append('E')
+        elif kind == 'cond.notify':
+            cur_h.append(('P' if role.startswith('Worker-') else 'N') + ('1' if rec[5] else '0'))
+        elif kind == 'array.set' and rec[4] == 'restart_array' and rec[6] and role.startswith('Worker-'):
+            cur_h.append('R')
+        elif kind == 'x.is_alive' and rec[4] == 'restart_handler' and not rec[5] and 'E' in cur_h and 'X' not in cur_h and 'F' in cur_h:
+            cur_h.append('X')
+    for r in tw:
+        # two terminate() calls at once (e.g. the caller and a handler thread): both clean up the same process object and see each
+        # other's close(); outside the single-caller model
+        r['concurrent'] = any(o is not r and o['wid'] == r['wid'] and o['i0'] <= (r['i1'] if r['i1'] is not None else 10 ** 12) and
+                              r['i0'] <= (o['i1'] if o['i1'] is not None else 10 ** 12) for o in tw)
+    for r in tw:
+        looks = r.pop('looks')
+        r['leaves'] = looks.index(False) if False in looks else None
+        r['acts'] = ','.join(r['acts'])
+    return {'tw': tw, 'hstop': [','.join(h) for h in hs]}
 
 
 def extract_aproto(trace):
